@@ -3,7 +3,7 @@
 # Confirms a seeded change in a scratch worktree of /repo's HEAD (outside /repo and /verif):
 #   patch applies; demo fails with it and passes without it; optionally the suite's stable-pass set still passes.
 set -u
-id="$1"; src="$2"; suite="${3:-}"
+id="$1"; src="$(realpath "$2")"; suite="${3:-}"
 wt="/tmp/cs_$id"
 git -C /repo worktree remove --force "$wt" 2>/dev/null
 git -C /repo worktree add --detach "$wt" HEAD -q || exit 2
